@@ -8,6 +8,7 @@ The text of an intrinsic call (the value of a `.$` member that does not begin wi
     string::= ''' { any char but ' and \  |  \'  |  \\  |  \c } '''
     path  ::= '$' { path character }
     name  ::= (letter | '_') { letter | digit | '_' | '.' }
+    path character = anything but white space , ( )
 
 A string literal denotes its body with `\'` read as `'` and `\\` as `\`; any other `\c`
 denotes the two characters `\c` (so `\{` and `\}` reach `States.Format`, which reads them
@@ -34,7 +35,7 @@ inductive Arg where
 def digitChar (d : Nat) : Char := Char.ofNat (48 + d)
 
 def natStr (n : Nat) : Str :=
-  if h : n < 10 then [digitChar n] else natStr (n / 10) ++ [digitChar (n % 10)]
+  if _h : n < 10 then [digitChar n] else natStr (n / 10) ++ [digitChar (n % 10)]
 termination_by n
 decreasing_by omega
 
@@ -70,7 +71,7 @@ end
 
 mutual
 def Arg.size : Arg → Nat
-  | .call _ args => 1 + Arg.sizeL args
+  | .call _ args => 2 + Arg.sizeL args
   | _ => 1
 def Arg.sizeL : List Arg → Nat
   | [] => 0
@@ -81,8 +82,8 @@ end
 
 def identStart (c : Char) : Bool := c.isAlpha || c = '_'
 def identChar (c : Char) : Bool := c.isAlphanum || c = '_' || c = '.'
-def pathChar (c : Char) : Bool :=
-  c.isAlphanum || c = '$' || c = '.' || c = '_' || c = '-' || c = '[' || c = ']' || c = '\''
+/-- a path token runs up to white space, a comma or a bracket -/
+def pathChar (c : Char) : Bool := !(isWs c || c = ',' || c = '(' || c = ')')
 
 def allIdent : Str → Bool
   | [] => true
@@ -164,14 +165,6 @@ def parseArg : Nat → Str → Option (Arg × Str)
       else if c = '$' then
         match takePath rest with
         | (p, r) => if tokenEnd r then some (.path ('$' :: p), r) else none
-      else if c = '-' then
-        match parseNat rest with
-        | some (n, r) => some (.int (-(n : Int)), r)
-        | none => none
-      else if c.isDigit then
-        match parseNat (c :: rest) with
-        | some (n, r) => some (.int (n : Int), r)
-        | none => none
       else if identStart c then
         match takeIdent rest with
         | (n, r) =>
@@ -184,6 +177,14 @@ def parseArg : Nat → Str → Option (Arg × Str)
             match keyword (c :: n) with
             | some a => if tokenEnd r then some (a, r) else none
             | none => none
+      else if c = '-' then
+        match parseNat rest with
+        | some (n, r) => some (.int (-(n : Int)), r)
+        | none => none
+      else if c.isDigit then
+        match parseNat (c :: rest) with
+        | some (n, r) => some (.int (n : Int), r)
+        | none => none
       else none
 /-- arguments after `(` up to and including `)` -/
 def parseArgs : Nat → Str → Option (List Arg × Str)
